@@ -20,6 +20,7 @@ func init() {
 	generators["c19hist"] = genC19Hist
 	generators["c20shared"] = genC20Shared
 	generators["c20paren"] = genC20Paren
+	generators["c20multi"] = genC20Multi
 	generators["c20"] = genC20
 	generators["c20k3"] = genC20K3
 	runners["dir"] = runDir
@@ -119,7 +120,7 @@ func runDir(t *Toks) string {
 		// parallel another process can take it in between (Start then reports a failure)
 		qt = &quietT{}
 		td = testdirectory.Start(qt, testdirectory.WithNoTLS(qt), testdirectory.WithLogger(qt, logger),
-			testdirectory.WithDefaults(qt, &testdirectory.Defaults{Users: users, Groups: groups, AllowAnonymousBind: anon, UserDN: userDN, GroupDN: groupDN}))
+			testdirectory.WithDefaults(qt, &testdirectory.Defaults{Users: users, Groups: groups, AllowAnonymousBind: anon, UserDN: userDN, GroupDN: groupDN, UPNDomain: "example.com"}))
 		qt.mu.Lock()
 		failed := qt.failed
 		qt.mu.Unlock()
@@ -363,6 +364,29 @@ func genC20Paren(g *Gen) {
 	}
 }
 
+// one Modify with two or three replace changes, later an add-value on an attribute replaced
+// earlier in that request: every attribute keeps its own values
+func genC20Multi(g *Gen) {
+	r := g.rng
+	for i := 0; i < g.n; i++ {
+		n := r.Pick(userNames)
+		dn := userDNOf(n)
+		us := []string{entryStr2(dn, [][2]interface{}{{"name", []string{n}}, {"email", []string{"old@x"}}, {"phone", []string{"1"}}})}
+		tys := []string{"email", "name", "phone"}
+		k := 2 + r.Intn(2)
+		var cs []string
+		for j := 0; j < k; j++ {
+			cs = append(cs, fmt.Sprintf("2 %s 1 %s", hxs(tys[j]), hxs(fmt.Sprintf("new-%s-%d", tys[j], i))))
+		}
+		look := "search " + hxs(dn) + " " + hxs("(objectClass=*)")
+		ops := []string{"modify " + hxs(dn) + " " + listStr(cs), look}
+		for j := 0; j < k; j++ {
+			ops = append(ops, fmt.Sprintf("modify %s 1 0 %s 1 %s", hxs(dn), hxs(tys[j]), hxs(fmt.Sprintf("second-%d@example.com", j))), look)
+		}
+		g.emit("dir", hxs(dirUserDN), hxs(dirGroupDN), "0", listStr(us), "0", listStr(ops))
+	}
+}
+
 // users built the way NewUsers(..., WithMembersOf(...)) builds them: every
 // user carries the same value list.  Each modification of one user is followed
 // by a look at all the others
@@ -429,11 +453,13 @@ func genC20(g *Gen) {
 // DNs, users without a password attribute, empty passwords), all binds
 func genC19(g *Gen) {
 	r := g.rng
-	dns := []string{"cn=a", "cn=ab", "cn=a,dc=x", "cn=b", "CN=A", "cn=a+uid=7,dc=x", "cn="}
+	// (the directory is started with Defaults.UPNDomain = example.com: a user named the way NewUsers
+	// names them under that option, and the login name that is NOT its DN)
+	dns := []string{"cn=a", "cn=ab", "cn=a,dc=x", "cn=b", "CN=A", "cn=a+uid=7,dc=x", "cn=", "userPrincipalName=eve@example.com," + dirUserDN}
 	// other spellings of the same names: the bind DN must be EXACTLY a user's DN, so none of these
 	// is a stored DN's equal (type case, blanks, separators, escapes, RDN order, trailing parts)
 	spellings := []string{"CN=a", "cn=a, dc=x", "cn=a;dc=x", "cn=a,dc=x,", "cn=\\61", "cn=a,DC=x", "uid=7+cn=a,dc=x",
-		"cn=a+uid=7, dc=x", "cn=a,dc=x,dc=", "Cn=ab", " cn=a", "cn=a "}
+		"cn=a+uid=7, dc=x", "cn=a,dc=x,dc=", "Cn=ab", " cn=a", "cn=a ", "eve@example.com", "eve", "userPrincipalName=eve@example.com"}
 	pws := []string{"", "p", "pq", "q"}
 	for i := 0; i < g.n; i++ {
 		k := r.Intn(5)
